@@ -21,3 +21,19 @@ def _with_conc(p, quick, thorough):
 for _pid in ('C01', 'C02'):
     if _pid in PROPS:
         _with_conc(PROPS[_pid], 12, 80)
+
+
+# C17's order clause for QoS 2 rests on the inbound exchange queue being a FIFO (C17_qos2_fifo cites
+# the ack-queue refinement): like C02/C12/C20, C17's tie includes the ack-queue correspondence (a
+# seeded change that mis-ordered the queue on growth was caught by C13 and C02 only)
+def _with_ackq(p):
+    from .props import ackq_oracle, ackq_nontrivial
+    o_or, o_nt = p.oracle, p.nontrivial
+    p.cores = list(p.cores) + ['ackq']
+    p.runs = list(p.runs) + [Run('ackq', quick=40000, thorough=300000, seeds_thorough=4)]
+    p.oracle = lambda op, a, b: ackq_oracle(op, a, b) if op.split()[0] == 'ackq' else o_or(op, a, b)
+    p.nontrivial = lambda op, out: ackq_nontrivial(op, out) if op.split()[0] == 'ackq' else o_nt(op, out)
+
+
+if 'C17' in PROPS:
+    _with_ackq(PROPS['C17'])
